@@ -443,6 +443,14 @@ impl std::future::Future for RawFut {
     }
 }
 
+struct AssertSend<T>(T);
+unsafe impl<T> Send for AssertSend<T> {}
+impl<T: FnOnce()> AssertSend<T> {
+    fn call(self) {
+        (self.0)()
+    }
+}
+
 /// `v` is owned by a frame that unwinds because of a panic which is caught inside the model.
 fn drop_by_caught_unwind<T>(v: T) {
     let r = std::panic::catch_unwind(std::panic::AssertUnwindSafe(move || {
@@ -559,7 +567,7 @@ fn run_thread(sh: SArc<Sh>, t: usize) {
                 // ... or the Receiver of channel o2, or the Track named k (values with a loom-aware Drop)
                 let owned_rx = if ins.o2.is_empty() { None } else { let i = sh.idx[&ins.o2]; sh.rxs[i].get().take().map(|r| (i, r)) };
                 let owned_trk = if ins.k.is_empty() { None } else { sh.trks.get().remove(&ins.k).map(|t| (ins.k.clone(), t)) };
-                let h = loom::thread::spawn(move || {
+                let body = move || {
                     if let Some((n, s)) = owned {
                         sh2.handles.get().insert(n, s);
                     }
@@ -570,7 +578,14 @@ fn run_thread(sh: SArc<Sh>, t: usize) {
                         sh2.trks.get().insert(n, t);
                     }
                     run_thread(sh2, u)
-                });
+                };
+                // ord = "builder": thread::Builder (name + stack size) instead of thread::spawn
+                let h = if ins.ord == "builder" {
+                    let b = AssertSend(body);     // Builder::spawn asks for Send, thread::spawn does not; one OS thread either way
+                    loom::thread::Builder::new().name(format!("t{}", u)).stack_size(1 << 18).spawn(move || b.call()).unwrap()
+                } else {
+                    loom::thread::spawn(body)
+                };
                 sh.th.get().insert(u, h.thread().clone());
                 sh.jh.get().insert(u, h);
             }
